@@ -84,7 +84,14 @@ def cases(tier, seed):
         # negative and very large seeds in every mode (they reach the children
         # through the re-serialised command line)
         yield ['modes', wi, [-1, -7, 2 ** 31, 2 ** 63 + 1]]
+    for wi in range(len(ws)):
+        sizes, unit = ws[wi]
+        if len(sizes) >= 2 and max(sizes) >= 3:
+            yield ['ctc', wi, [1, 7, 20260930]]
     yield ['interp', 256 if tier == 'quick' else 4096, None]
+
+
+CTC = [False]
 
 
 def build(wi, nie=False, mod=None):
@@ -105,6 +112,19 @@ def build(wi, nie=False, mod=None):
                           'tm': (mod or 'vtw.tests') + ('', '_b', '_c')[i % 3]})
     for i in range(unit):
         tests.append({'n': 'u%d' % i, 'l': None, 's': 'pass'})
+    if CTC[0]:
+        # test objects that stand for several / for no test cases
+        # (countTestCases() != 1): the shuffle permutes test OBJECTS
+        for nm in names[:2]:
+            mine = [t for t in tests if t['l'] == nm]
+            if mine:
+                mine[0]['ctc'] = 3
+            if len(mine) > 2:
+                mine[2]['ctc'] = 0
+        for t in tests:
+            if t['l'] is None:
+                t['ctc'] = 2
+                break
     sp = {'layers': layers, 'tests': tests}
     if mod:
         sp['mod'] = mod
@@ -449,7 +469,14 @@ def run_interp(nseeds):
 
 def run_case(case):
     kind, a, b = case
-    if kind == 'modes':
+    if kind == 'ctc':
+        CTC[0] = True
+        try:
+            evals, vs = run_modes(a, b, False)
+        finally:
+            CTC[0] = False
+        vs = [(c, dict(sg, ctc=True), d) for c, sg, d in vs]
+    elif kind == 'modes':
         evals, vs = run_modes(a, b, False)
     elif kind == 'list':
         evals, vs = run_modes(a, b, True)
